@@ -19,6 +19,8 @@
 //                                                        or operator()(model, v0) (explicit=0, clauses only)
 //   C04 ip <pomdp> <vlist prev> | <vlist level> | walked nCalls {<vlist in> <vlist out>}*   one IncrementalPruning timestep vs ipStep,
 //                                                        the Pruner's answers (logged along the library's own loop) as the oracle
+//   C04 wt <pomdp> <vlist prev> | <vlist level> | walked {nCalls {uLen <vec> has [<belief>]}*}*A <vlist in> <vlist out>   one Witness timestep vs
+//                                                        witnessAction / the final prune, the witness LP's answers (logged along the library's own loop) as the oracle
 //   C04 mk S A O | <vf> | <vf>                          makeValueFunction(S) and Policy(S,A,O).getValueFunction() vs zeroVF
 //   the vf line carries a 4th section:  | ioStatus nQ {bIdx h a id pOK}*   sampleAction(b,h) / getActionProbability at EVERY stored
 //       horizon; ioStatus 1 = every Policy call of the line went through a Policy written to a stream and loaded back (2 = load failed)
@@ -563,6 +565,66 @@ static void emitIP(Rng & rng) {
     }
 }
 
+// Witness, one timestep at a time (same idea as emitIP / emitLS): the loop is walked here with the library's own kernels
+// (Projecter, WitnessLP, addDefaultEntry / addVariations, crossSumBestAtBelief, Pruner) in the library's order with ONE WitnessLP
+// and ONE Pruner; the LP's answers are ORACLE answers for the Lean model `witnessAction`.
+static void emitWT(Rng & rng) {
+    size_t S = 1 + rng.below(3), A = 1 + rng.below(3), O = 1 + rng.below(3);
+    unsigned h = 1 + (unsigned)rng.below(3);
+    if (rng.coin(1, 5)) { O = 4 + rng.below(2); S = std::min<size_t>(S, 2); A = std::min<size_t>(A, 2); h = std::min(h, 2u); }
+    auto pt = randomPomdp(rng, S, A, O);
+    Model model = toDense(pt);
+    P::Witness solver(h, 0.0);
+    auto vf = std::get<1>(solver(model));
+    P::Witness wt(h, 0.0); wt.S = S; wt.A = A; wt.O = O;
+    P::Projecter<Model> project(model);
+    AIToolbox::Pruner prune(S);
+    AIToolbox::WitnessLP lp(S);
+    size_t reserveSize = 1;
+    struct Call { size_t uLen; AIToolbox::Vector v; bool has; AIToolbox::Vector b; };
+    for (size_t t = 1; t < vf.size(); ++t) {
+        reserveSize = std::max(reserveSize, 2 * vf[t - 1].size());
+        auto projections = project(vf[t - 1]);
+        std::vector<std::vector<Call>> calls(A);
+        std::vector<P::VList> U(A);
+        for (size_t a = 0; a < A; ++a) {
+            lp.reset(); wt.agenda_.clear(); wt.triedVectors_.clear();
+            size_t counter = 0;
+            lp.allocate(reserveSize);
+            wt.addDefaultEntry(projections[a]);
+            size_t guard = 0;
+            while (!wt.agenda_.empty() && guard++ < 100000) {
+                const auto witness = lp.findWitness(wt.agenda_.back());
+                calls[a].push_back(Call{U[a].size(), wt.agenda_.back(), (bool)witness, witness ? *witness : AIToolbox::Vector()});
+                if (witness) {
+                    auto best = P::crossSumBestAtBelief(*witness, projections[a], a);
+                    const auto sameValues = [&best](const P::VEntry & e) { return e.values == best.values; };
+                    if (std::any_of(std::begin(U[a]), std::end(U[a]), sameValues)) { wt.agenda_.pop_back(); continue; }
+                    U[a].push_back(std::move(best));
+                    lp.addOptimalRow(U[a].back().values);
+                    wt.addVariations(projections[a], U[a].back());
+                    if (++counter == reserveSize) { reserveSize *= 2; lp.allocate(reserveSize); }
+                } else wt.agenda_.pop_back();
+            }
+        }
+        P::VList w;
+        for (size_t a = 0; a < A; ++a) w.insert(std::end(w), std::begin(U[a]), std::end(U[a]));
+        P::VList in = w;
+        w.erase(prune(std::begin(w), std::end(w), P::unwrap), std::end(w));
+        bool walked = w.size() == vf[t].size();
+        for (size_t k = 0; walked && k < w.size(); ++k) walked = (w[k] == vf[t][k]);
+        Line l; l << "C04" << "wt"; putPomdp(l, pt); putVList(l, vf[t - 1]); l << "|"; putVList(l, vf[t]); l << "|" << walked;
+        size_t total = 0;
+        for (size_t a = 0; a < A; ++a) {
+            l << (size_t)calls[a].size(); total += calls[a].size();
+            for (auto & c : calls[a]) { l << c.uLen; putVector(l, c.v); l << c.has; if (c.has) putVector(l, c.b); }
+        }
+        putVList(l, in); putVList(l, w);
+        l.emit();
+        std::printf("#stat wt_lp_calls:%zu 1\n#stat wt_O:%zu 1\n#stat wt_walked:%d 1\n", std::min<size_t>(total, 60) / 5 * 5, O, (int)walked);
+    }
+}
+
 // PBVI warm start: operator()(model, beliefs, v0) / operator()(model, v0).  v0 is (0,1) what another solver returned
 // (consistent; PERSEUS' has a non-zero terminal list), (2) an ARBITRARY stack of lists (links may even be out of range:
 // PBVI must keep it verbatim and only read its last list), (3) a single non-zero terminal list with several entries.
@@ -625,7 +687,7 @@ void verif::verif_case(Rng & rng, long idx, const std::string & tier) {
         for (size_t nB : {2, 3, 20}) emitPERSEUSOn(regressingTables(), nB, 8, 7);
         return;
     }
-    if (idx >= 8 && idx < kFixed) { for (int k = 0; k < 12; ++k) { emitXD(rng); emitPR(rng); emitCS(rng); emitPJ(rng); emitPBVI(rng); emitWV(rng); emitPERSEUS(rng); emitLS(rng); emitPBVIW(rng); emitPBVIW(rng); emitMK(rng); emitIP(rng); } return; }
+    if (idx >= 8 && idx < kFixed) { for (int k = 0; k < 12; ++k) { emitXD(rng); emitPR(rng); emitCS(rng); emitPJ(rng); emitPBVI(rng); emitWV(rng); emitPERSEUS(rng); emitLS(rng); emitPBVIW(rng); emitPBVIW(rng); emitMK(rng); emitIP(rng); emitWT(rng); } return; }
     long r = idx - kFixed;
     int which = (int)(r % 6);
     size_t S = 2 + rng.below(3), A = 1 + rng.below(3), O = 1 + rng.below(3);
@@ -651,7 +713,7 @@ void verif::verif_case(Rng & rng, long idx, const std::string & tier) {
     }
     if (std::getenv("VERIF_DEBUG")) std::fprintf(stderr, "case %ld: %s S=%zu A=%zu O=%zu h=%u ugly=%d sparse=%d tol=%g\n", idx, kSolvers[which], S, A, O, h, (int)ugly, (int)sparse, tol);
     runSolver(rng, which, pt, h, tol, sparse, fewBeliefs);
-    if (r % 10 == 0) { emitXD(rng); emitPR(rng); emitCS(rng); emitPJ(rng); emitPBVI(rng); emitWV(rng); emitPERSEUS(rng); emitPERSEUS(rng); emitLS(rng); emitPBVIW(rng); emitPBVIW(rng); emitIP(rng); }
+    if (r % 10 == 0) { emitXD(rng); emitPR(rng); emitCS(rng); emitPJ(rng); emitPBVI(rng); emitWV(rng); emitPERSEUS(rng); emitPERSEUS(rng); emitLS(rng); emitPBVIW(rng); emitPBVIW(rng); emitIP(rng); emitWT(rng); }
 }
 
 VERIF_MAIN
